@@ -673,12 +673,114 @@ def h_get_integer_of_a_subscripted_parameter(eng):
     eng.prove("getint.subscripted_parameter_is_refused_or_answered_in_range", z3.BoolVal(bool(in_range and r == want)), answered=repr(r), element=repr(want))
 
 
+class Operand(Ext):
+    """what get_mx answers for an operand of an if-expression: a scalar MX that is a known constant (a literal condition such as
+    `true`, `false`, `1 > 2` folded by CasADi) or depends on variables; inspecting it is allowed, so the node API is there"""
+    type_names = ("MX",)
+
+    def __init__(self, label, const=None):
+        self.label, self.const = label, const
+
+    def sym_isinstance(self, eng, cls):
+        return cls.name == "MX"
+
+    def sym_getattr(self, eng, name):
+        c = self.const
+        table = {"is_constant": lambda eng: c is not None, "is_symbolic": lambda eng: False, "is_scalar": lambda eng, *a: True,
+                 "is_zero": lambda eng: c is not None and not c, "is_one": lambda eng: c is not None and bool(c),
+                 "is_regular": lambda eng: True, "is_dense": lambda eng: True, "is_empty": lambda eng, *a: False,
+                 "is_valid_input": lambda eng: False, "numel": lambda eng: 1, "nnz": lambda eng: 1,
+                 "size1": lambda eng: 1, "size2": lambda eng: 1, "size": lambda eng, *a: (1, 1), "n_dep": lambda eng: 0 if c is not None else 2}
+        if name in table:
+            return stub(table[name])
+        if name == "shape":
+            return (1, 1)
+        if name == "to_DM":
+            if c is None:
+                raise PyRaise(eng.make_exc("RuntimeError", "to_DM of a non-constant"))
+            return stub(lambda eng: Operand(self.label + ".dm", c))
+        from .casadi_facts import casadi_facts
+        if name in casadi_facts()["mx_attributes"]:
+            raise Unsupported("MX.%s on an if-expression operand" % name)
+        raise PyRaise(eng.make_exc("AttributeError", name))
+
+    def sym_unop(self, eng, op):
+        if op in ("float", "int", "bool") and self.const is not None:
+            return {"float": float, "int": int, "bool": bool}[op](self.const)
+        if op == "Not":
+            return Operand("not " + self.label, None if self.const is None else (not self.const))
+        raise Unsupported("operator %s on an MX operand" % op)
+
+    def sym_truth(self, eng):
+        if self.const is None:
+            raise PyRaise(eng.make_exc("RuntimeError", "truth value of a symbolic MX"))
+        return bool(self.const)
+
+    def sym_eq(self, eng, other):
+        return self is other
+
+
+def h_if_expression_evaluates_every_operand(eng):
+    """Generator.exitIfExpression: component references are turned into CasADi values -- and their subscripts checked against the
+    declared dimensions -- only when a callback asks get_mx for them.  An if-expression must therefore ask for EVERY condition and
+    EVERY branch, whatever is known about the conditions at generation time: a subscript in a branch that can never be taken is
+    still a subscript of the model (statement: every constant subscript is checked).  (How the value is built from the
+    operands is C11's subject, not demanded here: folding a known condition is fine as long as every operand was asked for.)"""
+    install(eng)
+    from .gen_common import new_generator
+    gm = eng.load_module(MOD)
+    nc = 1 + eng.choice(2)
+    kinds = [["true", "false", "depends-on-variables"][eng.choice(3)] for _ in range(nc)]
+    eng.input("conditions", kinds)
+    conds = [VObj(VClass("ComponentRef"), {"name": "cond%d" % k_}) for k_ in range(nc)]
+    exprs = [VObj(VClass("ComponentRef"), {"name": "x", "tag": "branch%d" % k_}) for k_ in range(nc + 1)]
+    vals = {}
+    for t, kd in zip(conds, kinds):
+        vals[id(t)] = Operand(t.fields["name"], {"true": True, "false": False}.get(kd))
+    for t in exprs:
+        vals[id(t)] = Operand(t.fields["tag"])
+    asked = []
+
+    def get_mx(eng, args, kw):
+        asked.append(args[1])
+        return vals[id(args[1])]
+    eng.call_contracts["Generator.get_mx"] = get_mx
+    combined = []
+
+    def if_else(eng, c, a, b, *rest):
+        r = Operand("if_else")
+        r.parts = (c, a, b)
+        combined.append(r)
+        return r
+    cas = eng.ext_modules["casadi"]
+
+    class Cas(Ext):
+        def sym_getattr(self, eng, name):
+            if name == "if_else":
+                return stub(if_else)
+            return cas.sym_getattr(eng, name)
+    eng.ext_modules["casadi"] = Cas()
+    gm.globals["ca"] = eng.ext_modules["casadi"]
+    g = new_generator(eng, gm, {"src": VDict(), "for_loops": VList([])})
+    tree = VObj(VClass("IfExpression"), {"conditions": VList(conds), "expressions": VList(exprs)})
+    f = eng.find_function(MOD, "Generator.exitIfExpression")
+    try:
+        eng.call(VBound(f, g), [tree], {})
+    except PyRaise as e:
+        eng.prove("ifexpr.no_exception", False, exc=repr(e.exc))
+        return
+    eng.cover("ifexpr.done")
+    missing = [t.fields.get("tag") or t.fields["name"] for t in conds + exprs if not any(a is t for a in asked)]
+    eng.prove("ifexpr.every_condition_and_every_branch_is_evaluated", z3.BoolVal(not missing), not_evaluated=missing)
+
+
 HARNESSES = [("Generator.get_indexed_symbol/constant", h_constant_subscripts),
              ("Generator.get_indexed_symbol/scalar", h_scalar_subscript),
              ("Generator.get_indexed_symbol/too-many", h_too_many),
              ("Generator.get_indexed_symbol+ForLoop.register_indexed_symbol/loop", h_loop_index),
-             ("Generator.get_integer on a reference into an Integer parameter array", h_get_integer_of_a_subscripted_parameter)]
-EXPECTED_COVER = {"const.raises", "const.returns", "scalar.raises", "toomany.raises", "loop.raises", "loop.returns", "getint.refuses"}
+             ("Generator.get_integer on a reference into an Integer parameter array", h_get_integer_of_a_subscripted_parameter),
+             ("Generator.exitIfExpression: every operand is evaluated", h_if_expression_evaluates_every_operand)]
+EXPECTED_COVER = {"const.raises", "const.returns", "scalar.raises", "toomany.raises", "loop.raises", "loop.returns", "getint.refuses", "ifexpr.done"}
 BOUNDED = True
 LEVEL = "proof"
 TRUSTED = ["pyvc VC generator", "z3 5.1.0 / cvc5 1.0.3",
